@@ -136,6 +136,24 @@ def password_to_ck_block(password):
     return rev(key[0:8]) + rev(key[8:16])
 
 
+# ---- directed cases: data that yields a chosen MAC (additive; used by vf.props.c20) ---------------------------------
+def tdes2_d(ka, kb, block):
+    """2-key triple DES decryption of one block (D-E-D), inverse of tdes2"""
+    return des_d(ka, des_e(kb, des_d(ka, block)))
+
+
+def solve_last_half(ck_block, rc_block, prefix, target_mac):
+    """the 8 bytes h (wire order) for which mac(ck_block, rc_block, prefix + h) == target_mac.  `prefix` = the data
+    in front of the last 8-byte half (length 8 mod 16 when whole blocks are read).  From the MAC formula:
+    MAC = rev(TDES(SK; rev(h) xor X)) with X the chain value after `prefix`, so rev(h) = TDES^-1(SK; rev(MAC)) xor X."""
+    prefix, target_mac = bytes(prefix), bytes(target_mac)
+    assert len(prefix) % 8 == 0 and len(target_mac) == 8
+    sk1, sk2 = session_key(ck_block, rc_block)
+    rc1 = rev(bytes(rc_block)[0:8])
+    x = _chain(sk1, sk2, rc1, _halves(prefix))
+    return rev(xor(tdes2_d(sk1, sk2, rev(target_mac)), x))
+
+
 # ---- vectors taken from the repository's own tests (tests/test_tag_tt3_sony.py) -------------------------------
 def selftest():
     """returns a list of failure strings (empty = all vectors reproduced)"""
@@ -172,6 +190,11 @@ def selftest():
     got = rev(_chain(key[8:16], key[0:8], iv, _halves(data))).hex()
     if got != "18cdd33c0fb25dd7":
         bad.append("chain flipped = %s" % got)
+    for target in (bytes(8), H("00112233445566ff"), H("ff000000000000ff")):
+        for prefix in (bytes(range(8)), bytes(range(40))):
+            h = solve_last_half(ck, rc, prefix, target)
+            if mac(ck, rc, prefix + h) != target:
+                bad.append("solve_last_half(%s) does not give the chosen MAC" % target.hex())
     return bad
 
 
